@@ -76,13 +76,13 @@ func inURLSpan(base string, pos int) bool {
 func init() { Registry["C18"] = runC18 }
 
 func runC18(ctx *core.Ctx) {
-	ctx.Rule = "per documented property: accepted single tokens are discovered from a ~500-token pool; base values = accepted sequences of <=3 tokens over 5 separators (bounded, stride-sampled to a fixed cap); each of 19 hostile fragments is prepended/appended (bare and with each separator), inserted at every byte offset and substituted for every byte; plus unknown-property lookups against the whole pool and an end-to-end pass through Policy.Sanitize. Non-trivial = a (handler, base value) pair the handler accepts, distinct by property+value"
+	ctx.Rule = "per documented property: accepted single tokens are discovered from a ~500-token pool; base values = accepted sequences of <=3 tokens over 5 separators plus 4-token sequences over a 4-token subset (bounded, stride-sampled to a fixed cap); each of 19 hostile fragments is prepended/appended (bare and with each separator), inserted at every byte offset and substituted for every byte; plus unknown-property lookups against the whole pool and an end-to-end pass through Policy.Sanitize. Non-trivial = a (handler, base value) pair the handler accepts, distinct by property+value"
 	ctx.Assume("containment of a hostile fragment is a syntactic fact about the generated value; bare javascript:/data: fragments are not judged when they land inside an http(s) url() token",
 		"values are kept <= 6 space-separated components so backtracking handlers cannot stall the monitor")
 	pool := gen.CSSTokenPool()
 	props := gen.CSSProperties
 	capSingles := ctx.N(18, 40)
-	capBases := ctx.N(120, 900)
+	capBases := ctx.N(200, 1200)
 
 	// --- unknown properties reject everything ---------------------------------
 	unknown := []string{"behavior", "-moz-binding", "Color", "color ", " color", "colour", "COLOR", "background-image ", "x", "", "binding", "-ms-behavior", "src", "content", "unicode-range", "font-face", "expression", "zoom", "-webkit-mask-image", "mask", "clip-path", "will-change"}
@@ -114,8 +114,12 @@ func runC18(ctx *core.Ctx) {
 	})
 
 	// --- per handler ---------------------------------------------------------------
-	ctx.Run("handler", len(props), func(cs *core.Case) {
-		prop := props[cs.Index]
+	const shards = 4 // the insertion work of one handler is split over 4 cases (better load balance)
+	ctx.Run("handler", len(props)*shards, func(cs *core.Case) {
+		prop := props[cs.Index/shards]
+		shard := cs.Index % shards
+		// discovery must not depend on the shard: use a PRNG derived from the property only
+		cs = &core.Case{Ctx: cs.Ctx, Stream: cs.Stream, Index: cs.Index, R: cs.Ctx.StreamRand("handler:" + prop)}
 		h := css.GetDefaultHandler(prop)
 		hn := handlerName(h)
 		lc := core.LocalCounts{}
@@ -135,7 +139,9 @@ func runC18(ctx *core.Ctx) {
 				singles = append(singles, t)
 			}
 		}
-		lc["accepted_single_tokens"] += len(singles)
+		if shard == 0 {
+			lc["accepted_single_tokens"] += len(singles)
+		}
 		if len(singles) == 0 {
 			cs.Skip("handler accepted no pool token: " + prop)
 			cs.Flush(lc)
@@ -178,6 +184,27 @@ func runC18(ctx *core.Ctx) {
 				}
 			}
 		}
+		quad := pick
+		if len(quad) > 4 {
+			quad = quad[:4]
+		}
+		for _, a := range quad {
+			for _, b := range quad {
+				for _, c := range quad {
+					for _, d := range quad {
+						for _, sep := range []string{" ", " / ", ", "} {
+							v := a + sep + b + sep + c + sep + d
+							if call(v) {
+								baseSet[v] = true
+							}
+						}
+						if v := a + " " + b + " / " + c + " " + d; call(v) {
+							baseSet[v] = true
+						}
+					}
+				}
+			}
+		}
 		bases := make([]string, 0, len(baseSet))
 		for b := range baseSet {
 			bases = append(bases, b)
@@ -198,7 +225,9 @@ func runC18(ctx *core.Ctx) {
 			}
 			bases = keep
 		}
-		lc["base_values"] += len(bases)
+		if shard == 0 {
+			lc["base_values"] += len(bases)
+		}
 		// 3. hostile insertion
 		report := func(base, v string, f hostileFrag, posClass string) {
 			sig := fmt.Sprintf("C18:%s:%s:%s", hn, f.class, posClass)
@@ -212,7 +241,10 @@ func runC18(ctx *core.Ctx) {
 			w["end_to_end_output"] = core.Show(p.Sanitize(in))
 			cs.Violate(sig, fmt.Sprintf("default handler of %q (%s) accepts %q, which contains the hostile fragment %q (%s)", prop, hn, v, f.text, posClass), w)
 		}
-		for _, base := range bases {
+		for bi, base := range bases {
+			if bi%shards != shard {
+				continue
+			}
 			cs.Nontrivial(core.Hash(prop, base))
 			if cs.Ctx.WantSample("base:" + hn) {
 				cs.Sample("base:"+hn, map[string]interface{}{"property": prop, "handler": hn, "accepted_base_value": base})
